@@ -1,12 +1,86 @@
-(* C06 — infix blocks mean what the precedence table says: theorem statements. *)
+(* C06 — infix blocks mean what the precedence table says: theorem statements.
+   Proofs: Proofs/PrattProofs.v (generic), Proofs/PrattInstance.v (table_ok => hypotheses). *)
 From Coq Require Import ZArith String List Bool.
 Import ListNotations.
 Require Import ZV.Model.PrattTypes ZV.Model.Pratt ZV.Model.PrattSpec ZV.Generated.InfixTable.
+Require Import ZV.Proofs.PrattProofs ZV.Proofs.PrattInstance.
 Open Scope Z_scope.
 Open Scope string_scope.
 
-Example ex_precedence :
-  m_parse_block infix_entries infix_lbp (fun _ => false)
-    [TSym "a" false; TSym "+" false; TSym "b" false; TSym "*" false; TSym "c" false]
-  = ROk [Bin (TSym "+" false) (Leaf (TSym "a" false)) (Bin (TSym "*" false) (Leaf (TSym "b" false)) (Leaf (TSym "c" false)))].
+(* The generated table (zygo/pratt.go as it is now) agrees with the DOCUMENTED order
+   (PrattSpec.Doc: assignment (right) < comma < or/and (right) < comparisons < + - < * / mod <
+   ** (right) < not < indexing/slicing/dot): every documented binary operator is registered with a
+   led that recurses with bp (left-assoc.) or bp-1 (right-assoc.) exactly as documented, the binding
+   powers of any two of them compare as their documented levels (order-isomorphism, not numeric
+   equality), `not` binds tighter than every binary operator, indexing and dot tighter than every
+   right binding power, and the table contains no operator the documentation does not list. *)
+Theorem documented_table : table_ok infix_entries infix_lbp = true.
 Proof. vm_compute. reflexivity. Qed.
+Print Assumptions documented_table.
+
+(* Whatever the table: the in-order yield of the tree Expression returns, followed by the unread
+   tokens, is the token list (nothing lost, duplicated or reordered; any fuel, any rbp). *)
+Theorem pratt_yield :
+  forall E K led_err eof fuel rbp ts x rest,
+    m_expr E K led_err eof fuel rbp ts = ROk (x, rest) -> (yield tok x ++ rest)%list = ts.
+Proof. intros E K led_err eof. exact (expr_yield tok _ _ _ _ _ _). Qed.
+Print Assumptions pratt_yield.
+
+(* For EVERY table that passes table_ok and every token list OF ANY LENGTH that the documented
+   grammar recognises as one expression  "unit, then any number of (binop unit)", where a unit is any number of `not`, an operand, any number of index or dot postfixes,
+   the tree the Pratt loop returns is the split-at-weakest tree of the documented table. *)
+Theorem pratt_precedence_correct_any_table :
+  forall E K, table_ok E K = true ->
+  forall eof ts a,
+    classify tok Doc.is_operand Doc.is_prefix Doc.is_binop Doc.is_postfix ts = Some a ->
+    m_expr E K (fun _ => false) eof (fuel_for tok ts) 0 ts
+    = ROk (split_alt tok Doc.prec Doc.rassoc a, []).
+Proof. exact instance_correct. Qed.
+Print Assumptions pratt_precedence_correct_any_table.
+
+(* ... in particular for the table generated from the repository. *)
+Theorem pratt_precedence_correct :
+  forall eof ts a,
+    classify tok Doc.is_operand Doc.is_prefix Doc.is_binop Doc.is_postfix ts = Some a ->
+    m_expr infix_entries infix_lbp (fun _ => false) eof (fuel_for tok ts) 0 ts
+    = ROk (split_alt tok Doc.prec Doc.rassoc a, []).
+Proof. exact (instance_correct infix_entries infix_lbp documented_table). Qed.
+Print Assumptions pratt_precedence_correct.
+
+(* Statements in order: an expression followed by a token that does not bind to the left (left
+   binding power <= 0: a semicolon, an operand, ...) is parsed to its oracle tree and the parser
+   stops exactly in front of that token, so the next statement starts there. *)
+Theorem statement_then_rest :
+  forall eof a tail,
+    take_expr tok Doc.is_operand Doc.is_prefix Doc.is_binop Doc.is_postfix (alt_tokens tok a ++ tail)%list = Some (a, tail) ->
+    match tail with [] => True | t :: _ => exists l, lbp_of infix_entries infix_lbp t = Some l /\ l <= 0 end ->
+    m_expr infix_entries infix_lbp (fun _ => false) eof (fuel_for tok (alt_tokens tok a)) 0 (alt_tokens tok a ++ tail)%list
+    = ROk (split_alt tok Doc.prec Doc.rassoc a, tail).
+Proof. exact (instance_stmt infix_entries infix_lbp documented_table). Qed.
+Print Assumptions statement_then_rest.
+
+(* non-vacuity *)
+Definition s (n : string) : tok := TSym n false.
+Example ex_precedence :
+  m_parse_block infix_entries infix_lbp (fun _ => false) [s "a"; s "+"; s "b"; s "*"; s "c"]
+  = ROk [Bin (s "+") (Leaf (s "a")) (Bin (s "*") (Leaf (s "b")) (Leaf (s "c")))].
+Proof. vm_compute. reflexivity. Qed.
+Example ex_classify_right_assoc :
+  Doc.parse [s "a"; s "="; s "b"; s "**"; s "c"; s "**"; s "d"; TComma; s "not"; s "e"; TArr 1]
+  = Some (Bin (s "=") (Leaf (s "a"))
+            (Bin TComma (Bin (s "**") (Leaf (s "b")) (Bin (s "**") (Leaf (s "c")) (Leaf (s "d"))))
+                        (Pre (s "not") (Post (TArr 1) (Leaf (s "e")))))).
+Proof. vm_compute. reflexivity. Qed.
+Example ex_model_agrees :
+  m_parse_block infix_entries infix_lbp (fun _ => false)
+    [s "a"; s "="; s "b"; s "**"; s "c"; s "**"; s "d"; TComma; s "not"; s "e"; TArr 1]
+  = ROk [Bin (s "=") (Leaf (s "a"))
+            (Bin TComma (Bin (s "**") (Leaf (s "b")) (Bin (s "**") (Leaf (s "c")) (Leaf (s "d"))))
+                        (Pre (s "not") (Post (TArr 1) (Leaf (s "e")))))].
+Proof. vm_compute. reflexivity. Qed.
+(* the first known finding, on the model of the code: `a not b` drops a *)
+Example ex_not_starts_statement_refuted :
+  m_parse_block infix_entries infix_lbp (fun _ => false) [s "a"; s "not"; s "b"]
+  = ROk [Drop (s "not") (Leaf (s "a")); Leaf (s "b")]
+  /\ Doc.block [s "a"; s "not"; s "b"] = Some [Leaf (s "a"); Pre (s "not") (Leaf (s "b"))].
+Proof. vm_compute. split; reflexivity. Qed.
